@@ -3791,9 +3791,16 @@ def dt13_st4(proj, rep, modules=None):
                         src[s.targets[0].id] = roots.pop()
                         changed = True
         for s in ast.walk(fi.node):
+            typed_after = None
             if isinstance(s, ast.Assign) and isinstance(s.targets[0], ast.Name) and isinstance(s.value, ast.Call) and ast.unparse(s.value.func).split('.')[-1] in ('empty_like', 'zeros_like') \
                     and s.value.args and isinstance(s.value.args[0], ast.Name) and s.value.args[0].id in src and not any(k.arg == 'dtype' for k in s.value.keywords):
-                buf, origin = s.targets[0].id, src[s.value.args[0].id]
+                typed_after = s.value.args[0].id
+            elif isinstance(s, ast.Assign) and isinstance(s.targets[0], ast.Name) and isinstance(s.value, ast.Call) and ast.unparse(s.value.func).split('.')[-1] in ('empty', 'zeros'):
+                dk = next((k.value for k in s.value.keywords if k.arg == 'dtype'), None)
+                if isinstance(dk, ast.Attribute) and dk.attr == 'dtype' and isinstance(dk.value, ast.Name) and dk.value.id in src:
+                    typed_after = dk.value.id
+            if typed_after is not None:
+                buf, origin = s.targets[0].id, src[typed_after]
                 for a in ast.walk(fi.node):
                     if isinstance(a, ast.Assign) and isinstance(a.targets[0], ast.Subscript) and isinstance(a.targets[0].value, ast.Name) and a.targets[0].value.id == buf:
                         n += 1
@@ -3805,8 +3812,8 @@ def dt13_st4(proj, rep, modules=None):
                         others = {o for o in others if _array_evidence(fi, o)}
                         if others and any(isinstance(c, ast.BinOp) and isinstance(c.op, (ast.Mult, ast.MatMult)) for c in ast.walk(a.value)):
                             rep.touch(m)
-                            rep.violation('DT13', fi.qual, f'`{ast.unparse(s)[:50]}` has the dtype of `{origin}`; `{ast.unparse(a)[:60]}` stores products with `{sorted(others)[0]}`: a complex '
-                                          f'`{sorted(others)[0]}` on a real-typed `{origin}` loses its imaginary part', m, a)
+                            rep.violation('DT13', fi.qual, f'`{ast.unparse(s)[:50]}` has the dtype of `{origin}`; `{ast.unparse(a)[:60]}` stores products with `{sorted(others)[0]}`: a wider-typed '
+                                          f'`{sorted(others)[0]}` (complex on real, float on integer) is truncated to the dtype of `{origin}`', m, a)
         # ST4
         for blk in [getattr(x, f) for x in ast.walk(fi.node) for f in ('body', 'orelse') if isinstance(getattr(x, f, None), list)]:
             for i, st in enumerate(blk):
